@@ -94,15 +94,38 @@ theorem valuesEqual_construction_independent (X : Ctx) (hX : X.Coherent) (pf : N
 
 /-- The hypotheses are satisfiable by a non-trivial state: two `P[x: _]` tuples with different ids
 (2 and 3: same name and labels, declared at sites with different field types), one holding a
-constant binary and the other a heap binary with the same bytes, nested in an unnamed pair. -/
+constant binary and the other a heap rope (concat of an owned byte and a slice) with the same
+bytes, nested in an unnamed pair. -/
 def exCtx : Ctx := Ctx.ofProgram
   [⟨none, []⟩, ⟨some "Ok", []⟩, ⟨some "P", [some "x"]⟩, ⟨some "P", [some "x"]⟩, ⟨none, [none, none]⟩]
-  [.int 7, .bin [1, 2, 3]] [[9], [1, 2, 3]]
+  [.int 7, .bin [1, 2, 3]] [.owned [9], .tiled (.owned [1, 2, 3]) 1, .concat (.owned [1]) (.slice (.owned [0, 2, 3, 4]) 1 2) 3]
 def exA : Val := .tup 4 (.cons (.tup 2 (.cons (.bin (.const 1)) .nil)) (.cons (.proc 5 8) .nil))
-def exB : Val := .tup 4 (.cons (.tup 3 (.cons (.bin (.heap 1)) .nil)) (.cons (.proc 5 8) .nil))
+def exB : Val := .tup 4 (.cons (.tup 3 (.cons (.bin (.heap 2)) .nil)) (.cons (.proc 5 8) .nil))
 example : exCtx.Coherent := Ctx.ofProgram_coherent _ _ _
+  (fun r hr => (Rope.lenOKB_iff r).1 (List.all_eq_true.1 (by decide : List.all _ Rope.lenOKB = true) r hr))
 example : wfB exCtx exA = true ∧ wfB exCtx exB = true := by decide
 example : valuesEqual exCtx exA exB = true ∧ exA ≠ exB ∧ erase exCtx exA = erase exCtx exB := by decide
+
+/-- **Binary equality is independent of the rope shape** (Owned / Zeroed / Slice / Concat / Tiled,
+under any factorisation): two heap binaries compare equal iff their flattened bytes agree. -/
+theorem binEqual_shape_independent (X : Ctx) (hX : X.Coherent) (i j : Nat) (ra rb : Rope)
+    (hi : X.heap[i]? = some ra) (hj : X.heap[j]? = some rb) :
+    valuesEqual X (.bin (.heap i)) (.bin (.heap j)) = true ↔ ra.toVec = rb.toVec := by
+  simp [valuesEqual, binEqual_eq X hX.2, Ctx.bytesOf, Ctx.heapBytes, hi, hj]
+
+/-- The same bytes tiled under three factorisations, zero-filled vs tiled zero, a slice of a concat:
+all equal (the situation a shape-based fast path gets wrong). -/
+example :
+    let X := Ctx.ofProgram [] []
+      [.tiled (.owned [0xab]) 8, .tiled (.owned [0xab, 0xab]) 4, .tiled (.tiled (.owned [0xab]) 4) 2,
+       .owned [0xab, 0xab, 0xab, 0xab, 0xab, 0xab, 0xab, 0xab],
+       .zeroed 4, .tiled (.owned [0]) 4, .slice (.concat (.owned [9, 0, 0]) (.zeroed 5) 8) 1 4]
+    valuesEqual X (.bin (.heap 0)) (.bin (.heap 1)) = true ∧
+    valuesEqual X (.bin (.heap 1)) (.bin (.heap 2)) = true ∧
+    valuesEqual X (.bin (.heap 0)) (.bin (.heap 3)) = true ∧
+    valuesEqual X (.bin (.heap 4)) (.bin (.heap 5)) = true ∧
+    valuesEqual X (.bin (.heap 5)) (.bin (.heap 6)) = true ∧
+    valuesEqual X (.bin (.heap 3)) (.bin (.heap 6)) = false := by decide
 
 /-! ## Where the hypotheses bite (mirrors of the three findings) -/
 
